@@ -338,9 +338,8 @@ def r5(ctx, T):
 
 
 # ---------------------------------------------------------------------------------------------- R6
-def r6(ctx):
+def r6(ctx, rule="C04.R6"):
     from .. import facts as F
-    rule = "C04.R6"
     ctx.rule(rule, "documented-panic precondition: every call of BitVec::from_vec_with_trailing_bit_len in the decoders is "
                    "dominated by a comparison of the vector's length with 8")
     P = ctx.program()
@@ -367,7 +366,7 @@ def r6(ctx):
                 else:
                     ctx.fail(rule, key, "BitVec::from_vec_with_trailing_bit_len (panics below 8 octets) is called on wire data "
                                         "without a dominating `len() < 8` test", cs.loc(), detail)
-    ctx.floor(rule, n, "C04.R6.callers")
+    ctx.floor(rule, n, rule + ".callers")
 
 
 def run(ctx):
